@@ -740,8 +740,10 @@ func genC14(w *bufio.Writer, seed int64, n int, tier string) {
 				shape = 8
 			} else if i == 6 {
 				shape = 9
-			} else if i > 6 {
-				shape = r.Intn(10)
+			} else if i == 7 {
+				shape = 10
+			} else if i > 7 {
+				shape = r.Intn(11)
 			}
 			switch shape {
 			case 0: // replica first, then bursts (also of a single write: the last write must arrive)
@@ -852,6 +854,26 @@ func genC14(w *bufio.Writer, seed int64, n int, tier string) {
 					g.burst(1, 2)
 					g.emit("settle")
 				}
+			case 10: // the history is spread over three or more log files when the replica needs it from
+				// the start: it joins late, or was cut off across two rotations
+				late := r.Intn(3) > 0
+				if !late {
+					g.emit("join")
+					g.burst(1, 3)
+					g.emit("settle")
+					g.emit("cut")
+				}
+				for f := 2 + r.Intn(2); f > 0; f-- {
+					g.burst(2, 5)
+					g.emit("flush")
+				}
+				g.burst(1, 3)
+				if late {
+					g.emit("join")
+				} else {
+					g.emit("heal")
+				}
+				g.emit("settle")
 			case 5: // cut while the replica is catching up on a long history
 				g.many(150 + r.Intn(100))
 				g.emit("join")
